@@ -304,32 +304,71 @@ class RegexCompiler:
             self._patch(jump_idx, Op.JUMP, end_offset)
 
     def _compile_quantifier(self, node: Quantifier):
-        """Compile quantifier with ReDoS protection."""
+        """Compile a quantifier following the ECMAScript RepeatMatcher.
+
+        Every iteration starts with the captures of the body reset. The required
+        iterations may match the empty string; an optional iteration that does not
+        advance fails, and leaving the loop keeps the captures of the last
+        completed iteration.
+        """
         min_count = node.min
         max_count = node.max
         greedy = node.greedy
+        body = node.body
+        groups = self._find_capture_groups(body)
+        may_be_empty = self._needs_advance_check(body)
 
-        # Check if we need zero-advance detection
-        need_advance_check = self._needs_advance_check(node.body)
+        if min_count == 1 and max_count == -1 and not may_be_empty:
+            # + over a body that always advances: one copy of the body
+            loop_start = self._current_offset()
+            self._emit_capture_reset(groups)
+            self._compile_node(body)
+            split_op = Op.SPLIT_FIRST if greedy else Op.SPLIT_NEXT
+            split_idx = self._emit(split_op, 0)
+            self._emit(Op.JUMP, loop_start)
+            self._patch(split_idx, split_op, self._current_offset())
+            return
 
-        # Handle specific cases
-        if min_count == 0 and max_count == 1:
-            # ? quantifier
-            self._compile_optional(node.body, greedy)
-        elif min_count == 0 and max_count == -1:
-            # * quantifier
-            self._compile_star(node.body, greedy, need_advance_check)
-        elif min_count == 1 and max_count == -1:
-            # + quantifier
-            self._compile_plus(node.body, greedy, need_advance_check)
-        elif max_count == -1:
-            # {n,} quantifier
-            self._compile_at_least(node.body, min_count, greedy, need_advance_check)
+        # Required iterations
+        for _ in range(min_count):
+            self._emit_capture_reset(groups)
+            self._compile_node(body)
+
+        # One position register serves every optional iteration: an iteration is
+        # only entered after the previous one has been checked
+        reg = self._allocate_register() if may_be_empty and max_count != min_count else None
+
+        if max_count == -1:
+            # Unbounded: loop over optional iterations
+            loop_start = self._current_offset()
+            exits = [self._emit_optional_iteration(body, greedy, groups, reg)]
+            self._emit(Op.JUMP, loop_start)
         else:
-            # {n,m} quantifier
-            self._compile_range(
-                node.body, min_count, max_count, greedy, need_advance_check
-            )
+            # Each further iteration is only tried after the previous one matched
+            exits = [
+                self._emit_optional_iteration(body, greedy, groups, reg)
+                for _ in range(max_count - min_count)
+            ]
+        end = self._current_offset()
+        for split_idx, split_op in exits:
+            self._patch(split_idx, split_op, end)
+
+    def _emit_optional_iteration(
+        self, body: Node, greedy: bool, groups: List[int], reg: Optional[int]
+    ):
+        """One optional iteration; returns the split whose target is the loop exit."""
+        # Greedy: try the iteration, keep the exit as alternative. Lazy: leave
+        # first, keep the iteration as alternative.
+        split_op = Op.SPLIT_FIRST if greedy else Op.SPLIT_NEXT
+        split_idx = self._emit(split_op, 0)
+        if reg is not None:
+            self._emit(Op.SET_POS, reg)
+        # After the split: the exit path keeps the captures of the last iteration
+        self._emit_capture_reset(groups)
+        self._compile_node(body)
+        if reg is not None:
+            self._emit(Op.CHECK_ADVANCE, reg)
+        return split_idx, split_op
 
     def _needs_advance_check(self, node: Node) -> bool:
         """
@@ -385,168 +424,6 @@ class RegexCompiler:
             min_group = min(groups)
             max_group = max(groups)
             self._emit(Op.SAVE_RESET, min_group, max_group)
-
-    def _compile_optional(self, body: Node, greedy: bool):
-        """Compile ? quantifier."""
-        # Find capture groups in body to reset when skipping
-        capture_groups = self._find_capture_groups(body)
-
-        # Check if body might match zero-width (e.g., lookaheads)
-        # If so, we need to reset captures if the optional group matches zero-width
-        # because per ECMAScript spec, zero-width optional matches should have
-        # undefined captures (equivalent to skipping the group)
-        need_zero_width_reset = capture_groups and self._needs_advance_check(body)
-
-        if greedy:
-            # Try match first, skip as backup
-            # Reset captures first (they should be undefined if we backtrack to skip)
-            self._emit_capture_reset(capture_groups)
-
-            if need_zero_width_reset:
-                # Save position to check if body advanced
-                reg = self._allocate_register()
-                self._emit(Op.SET_POS, reg)
-
-            split_idx = self._emit(Op.SPLIT_FIRST, 0)
-            self._compile_node(body)
-
-            if need_zero_width_reset:
-                # Reset captures if position didn't advance
-                min_group = min(capture_groups)
-                max_group = max(capture_groups)
-                self._emit(Op.RESET_IF_NO_ADV, reg, min_group, max_group)
-
-            self._patch(split_idx, Op.SPLIT_FIRST, self._current_offset())
-        else:
-            # Try skip first, match as backup
-            split_idx = self._emit(Op.SPLIT_NEXT, 0)
-
-            if need_zero_width_reset:
-                # Save position to check if body advanced
-                reg = self._allocate_register()
-                self._emit(Op.SET_POS, reg)
-
-            self._emit_capture_reset(capture_groups)
-            self._compile_node(body)
-
-            if need_zero_width_reset:
-                # Reset captures if position didn't advance
-                min_group = min(capture_groups)
-                max_group = max(capture_groups)
-                self._emit(Op.RESET_IF_NO_ADV, reg, min_group, max_group)
-
-            self._patch(split_idx, Op.SPLIT_NEXT, self._current_offset())
-
-    def _compile_star(self, body: Node, greedy: bool, need_advance_check: bool):
-        """Compile * quantifier."""
-        # Find capture groups in body to reset at each iteration
-        capture_groups = self._find_capture_groups(body)
-
-        if need_advance_check:
-            reg = self._allocate_register()
-            loop_start = self._current_offset()
-
-            if greedy:
-                self._emit(Op.SET_POS, reg)
-                split_idx = self._emit(Op.SPLIT_FIRST, 0)
-                self._emit_capture_reset(capture_groups)
-                self._compile_node(body)
-                self._emit(Op.CHECK_ADVANCE, reg)
-                self._emit(Op.JUMP, loop_start)
-                self._patch(split_idx, Op.SPLIT_FIRST, self._current_offset())
-            else:
-                self._emit(Op.SET_POS, reg)
-                split_idx = self._emit(Op.SPLIT_NEXT, 0)
-                self._emit_capture_reset(capture_groups)
-                self._compile_node(body)
-                self._emit(Op.CHECK_ADVANCE, reg)
-                self._emit(Op.JUMP, loop_start)
-                self._patch(split_idx, Op.SPLIT_NEXT, self._current_offset())
-        else:
-            loop_start = self._current_offset()
-            if greedy:
-                split_idx = self._emit(Op.SPLIT_FIRST, 0)
-            else:
-                split_idx = self._emit(Op.SPLIT_NEXT, 0)
-
-            self._emit_capture_reset(capture_groups)
-            self._compile_node(body)
-            self._emit(Op.JUMP, loop_start)
-
-            if greedy:
-                self._patch(split_idx, Op.SPLIT_FIRST, self._current_offset())
-            else:
-                self._patch(split_idx, Op.SPLIT_NEXT, self._current_offset())
-
-    def _compile_plus(self, body: Node, greedy: bool, need_advance_check: bool):
-        """Compile + quantifier."""
-        # Find capture groups in body to reset at each iteration
-        capture_groups = self._find_capture_groups(body)
-
-        if need_advance_check:
-            reg = self._allocate_register()
-            loop_start = self._current_offset()
-
-            self._emit_capture_reset(capture_groups)
-            self._emit(Op.SET_POS, reg)
-            self._compile_node(body)
-            # CHECK_ADVANCE before SPLIT so that if body took a non-advancing path
-            # (like empty alternative), we backtrack to body alternatives first,
-            # not directly to the loop exit
-            self._emit(Op.CHECK_ADVANCE, reg)
-
-            if greedy:
-                split_idx = self._emit(Op.SPLIT_FIRST, 0)
-                self._emit(Op.JUMP, loop_start)
-                self._patch(split_idx, Op.SPLIT_FIRST, self._current_offset())
-            else:
-                split_idx = self._emit(Op.SPLIT_NEXT, 0)
-                self._emit(Op.JUMP, loop_start)
-                self._patch(split_idx, Op.SPLIT_NEXT, self._current_offset())
-        else:
-            loop_start = self._current_offset()
-            self._emit_capture_reset(capture_groups)
-            self._compile_node(body)
-
-            if greedy:
-                split_idx = self._emit(Op.SPLIT_FIRST, 0)
-            else:
-                split_idx = self._emit(Op.SPLIT_NEXT, 0)
-
-            self._emit(Op.JUMP, loop_start)
-
-            if greedy:
-                self._patch(split_idx, Op.SPLIT_FIRST, self._current_offset())
-            else:
-                self._patch(split_idx, Op.SPLIT_NEXT, self._current_offset())
-
-    def _compile_at_least(
-        self, body: Node, min_count: int, greedy: bool, need_advance_check: bool
-    ):
-        """Compile {n,} quantifier."""
-        # Emit body min_count times
-        for _ in range(min_count):
-            self._compile_node(body)
-
-        # Then emit * for the rest
-        self._compile_star(body, greedy, need_advance_check)
-
-    def _compile_range(
-        self,
-        body: Node,
-        min_count: int,
-        max_count: int,
-        greedy: bool,
-        need_advance_check: bool,
-    ):
-        """Compile {n,m} quantifier."""
-        # Emit body min_count times (required)
-        for _ in range(min_count):
-            self._compile_node(body)
-
-        # Emit body (max_count - min_count) times (optional)
-        for _ in range(max_count - min_count):
-            self._compile_optional(body, greedy)
 
     def _allocate_register(self) -> int:
         """Allocate a register for position tracking."""
